@@ -293,10 +293,10 @@ int a_buf_store(void *ctx_, a_size idx, void *ptr, a_size num, int (*copy)(void 
 int a_buf_erase(void *ctx_, a_size idx, a_size num, void (*dtor)(void *))
 {
     int rc = A_SUCCESS;
-    a_size const n = idx + num;
     a_buf *const ctx = (a_buf *)ctx_;
+    a_size const n = (idx < ctx->num_ && num < ctx->num_ - idx) ? idx + num : ctx->num_;
     a_byte *const buf = (a_byte *)(ctx + 1);
-    if (dtor)
+    if (dtor && idx < ctx->num_)
     {
         a_byte *p = buf + ctx->siz_ * idx;
         a_size i = (n <= ctx->num_ ? n : ctx->num_);
